@@ -387,6 +387,24 @@ fn check_case(case: &Case, obs: &mut Obs) -> Verdict {
         if k >= t && ops != ops0 {
             return Verdict::Fail(format!("capture: deadline not reached but ops {:?} != no-deadline ops {:?}", ops, ops0));
         }
+        // what a deadline fallback reports goes through the same clean-up: an insertion or deletion that
+        // stands alone in the captured list carries the exact position on the other side (C01's clause;
+        // a mismatch that the swap repair removes is the known finding D7 and C11's / C05's business)
+        if let Err((false, m)) = carried_exact(&ops, c.or.0, c.nr.0) {
+            similar::verif::swap::set_repair(true);
+            let again = capture(c, Some(k));
+            similar::verif::swap::set_repair(false);
+            execs += 1;
+            match again {
+                Ok(o2) => {
+                    if let Err((_, m2)) = carried_exact(&o2, c.or.0, c.nr.0) {
+                        return Verdict::Fail(format!("{} capture with expiry at probe {} of {}: ops {:?}: {} (persists with the swap repair on: {})", name, k, t, ops, m, m2));
+                    }
+                    obs.class("known finding D7 reached under a deadline (not judged here)");
+                }
+                Err(p) => return Verdict::Fail(format!("capture with swap repair: {}", p)),
+            }
+        }
         // plumbing: the text-diff builder and capture_diff_slices_deadline reach the algorithm.
         // Judged only where probe-indexed time is unambiguous even if a wrapper adds probes of its
         // own: expiry at the very first probe (every later probe reports expiry too) and a clock
@@ -725,7 +743,7 @@ impl Prop for C07 {
     const ID: &'static str = "C07";
     const LEVEL: &'static str = "fault_enumeration";
     fn rule() -> String {
-        "cases = (algorithm, old, new, ranges, entry point in {algorithms::diff_deadline, diff_slices_deadline}); for each case the number of deadline probes T is learnt with a never-expiring virtual clock and then EVERY expiry index k in 0..=T is executed (T <= 64) or {0..7, T-1, T} plus 16 generated indices (T > 64) ('executions' counts runs). Families: the shared small mixture, unrelated 50-400 item sequences over alphabets 2-6 (many probes), and the Patience anchor/gap family. Oracle per k: C01 stream validator, finish once and last, C02+C09 oracles on capture_diff_deadline, at most 4*(N+M)+16 element comparisons after expiry (counting PartialEq; through capture_diff_deadline, whose clean-up compares items too, at most 8*(N+M)+16; measured maxima under metrics_max), k >= T and never-expiring clock => identical to no deadline; plumbing: TextDiffConfig::deadline / ::timeout / capture_diff_slices_deadline give valid scripts at every k, the ops of capture_diff_deadline when the clock expires at the first probe or never, and consult the clock whenever the direct call does; real clock: a run whose deadline passed before the call makes at most 8*(N+M)+16 comparisons in total (this sees a probe that is consulted too rarely, which probe-indexed time cannot), deadline in the past == expiry at probe 0, a real deadline 150 us ahead that passes in mid-run (an item whose == waits for it at comparison 1, a third, a half and a generated point of the run) leaves a valid script and at most 8*(N+M)+16 later comparisons, deadline one hour ahead == no deadline, a builder on which deadline(past) is set last (alone, after timeout(1 h), after deadline(far)) == expired; wall-clock stage: unrepresentably large timeouts == no deadline (no panic), and a timeout counts from the start of the diff (a builder configured 1.7 s before use with timeout(1.5 s) still gives the exact diff of a tiny input; a mismatch must repeat 3 times). 1 random case in 40 is an expensive input (257-400 items; LCS tables of 66 000-160 000 cells) on which only never-expiring deadlines are executed (virtual, real, capture_diff_deadline, TextDiffConfig::deadline/timeout) and compared with no deadline. Non-trivial = T >= 2 and some expiry index changes the result; distinct = distinct serialized case.".into()
+        "cases = (algorithm, old, new, ranges, entry point in {algorithms::diff_deadline, diff_slices_deadline}); for each case the number of deadline probes T is learnt with a never-expiring virtual clock and then EVERY expiry index k in 0..=T is executed (T <= 64) or {0..7, T-1, T} plus 16 generated indices (T > 64) ('executions' counts runs). Families: the shared small mixture, unrelated 50-400 item sequences over alphabets 2-6 (many probes), and the Patience anchor/gap family. Oracle per k: C01 stream validator, finish once and last, C02+C09 oracles on capture_diff_deadline and exact carried positions of its stand-alone insertions / deletions (mismatches that the swap repair removes are left to C11/C05), at most 4*(N+M)+16 element comparisons after expiry (counting PartialEq; through capture_diff_deadline, whose clean-up compares items too, at most 8*(N+M)+16; measured maxima under metrics_max), k >= T and never-expiring clock => identical to no deadline; plumbing: TextDiffConfig::deadline / ::timeout / capture_diff_slices_deadline give valid scripts at every k, the ops of capture_diff_deadline when the clock expires at the first probe or never, and consult the clock whenever the direct call does; real clock: a run whose deadline passed before the call makes at most 8*(N+M)+16 comparisons in total (this sees a probe that is consulted too rarely, which probe-indexed time cannot), deadline in the past == expiry at probe 0, a real deadline 150 us ahead that passes in mid-run (an item whose == waits for it at comparison 1, a third, a half and a generated point of the run) leaves a valid script and at most 8*(N+M)+16 later comparisons, deadline one hour ahead == no deadline, a builder on which deadline(past) is set last (alone, after timeout(1 h), after deadline(far)) == expired; wall-clock stage: unrepresentably large timeouts == no deadline (no panic), and a timeout counts from the start of the diff (a builder configured 1.7 s before use with timeout(1.5 s) still gives the exact diff of a tiny input; a mismatch must repeat 3 times). 1 random case in 40 is an expensive input (257-400 items; LCS tables of 66 000-160 000 cells) on which only never-expiring deadlines are executed (virtual, real, capture_diff_deadline, TextDiffConfig::deadline/timeout) and compared with no deadline. Non-trivial = T >= 2 and some expiry index changes the result; distinct = distinct serialized case.".into()
     }
     fn assumptions() -> Vec<String> {
         vec![
